@@ -9,6 +9,7 @@ must be a behaviour of the specification.  The file variant
 (PageTextTemplateFile) must return the same text encoded with the template's
 encoding; values containing markup must arrive unescaped.
 """
+from harness import REPO_SRC  # noqa: E402
 import os
 import random
 import sys
@@ -36,7 +37,7 @@ def run(ctx):
 
 
 def markup_runs(ctx, rnd):
-    sys.path.insert(0, "/repo/src")
+    sys.path.insert(0, REPO_SRC)
     from chameleon import PageTextTemplate, PageTextTemplateFile
     pieces = ["<b>", "</b>", "<!-- c -->", "<!--! c -->", "<!--? c -->", "<?python x = 1 ?>", "<?php ?>", "<![CDATA[ x ]]>",
               '<a tal:content="x" tal:omit-tag="">', "<br />", "<!DOCTYPE html>", "&amp;", "&lt;", "<", ">", "</", "<!", "<?",
